@@ -32,6 +32,7 @@ def big_program(pid, kind, nb, na, nsteps, rng):
 
     M = (1 << 64) - 1
     branches, finals, ranges = [], [], []
+    cap_order = []
     for b in range(nb):
         lo = ids[0] + 1
         parts = []
@@ -52,6 +53,7 @@ def big_program(pid, kind, nb, na, nsteps, rng):
                 idx_in_step = (a + 1) if s == 0 else a
                 k = K(b, idx_in_step + 100 * s)
                 c = nid()
+                cap_order.append((s, b, a, c))
                 tilde = "~" if (s > 0 and a == 0) else ""
                 if asy:
                     if is_try:
@@ -60,7 +62,7 @@ def big_program(pid, kind, nb, na, nsteps, rng):
                         op = "%s|> { zc(%d); let k = %du64; move |v: u64| v.wrapping_mul(31).wrapping_add(k) }" % (tilde, c, k)
                     state = (True, (state[1] * 31 + k) & M)
                 else:
-                    which = (b + a + s) % 5
+                    which = (2 * b + a + 3 * s) % 5  # asymmetric in (branch, position): mirrored slots differ in kind
                     if which == 0:
                         op = "%s|> { zc(%d); let k = %du64; move |v: u64| v.wrapping_mul(31).wrapping_add(k) }" % (tilde, c, k)
                         if state[0]:
@@ -110,7 +112,9 @@ def big_program(pid, kind, nb, na, nsteps, rng):
             rty = "[Result<u64, u8>; %d]" % nb
             ref_final = "[%s]" % ", ".join(show(st) for st in finals)
     dsl = ", ".join(branches) + ", " + h
-    return pid, kind, dsl, rty, ref_final, ranges, ids[0] + 2, "big,big:%dx%dx%d" % (nb, na, nsteps)
+    # block operands are evaluated before their step, in branch-then-position order
+    ref_caps = " ".join("zc(%d);" % c for (_, _, _, c) in sorted(cap_order))
+    return pid, kind, dsl, rty, ref_final, ranges, ids[0] + 2, "big,big:%dx%dx%d" % (nb, na, nsteps), ref_caps, False
 
 
 def fold_program(pid, kind, nb, rng):
@@ -282,7 +286,9 @@ def render(entry):
         pid, kind, dsl, rty, ref_final, ranges, max_id, tags, ref_pre, has_cap = entry
     asy = kind in ASYNC
     # captures of the reference: big programs log their zc ids in order; nests log zc(2) when position == capture
-    if "big" in tags:
+    if "big" in tags and ref_pre:
+        ref_body = "%s let __res: %s = %s; __res" % (ref_pre, rty, ref_final)
+    elif "big" in tags:
         caps = " ".join("zc(%d);" % c for c in cap_ids(dsl))
         # hoisting order: all captures of a step before its chains; with a single global order of ids per step
         ref_body = "%s let __res: %s = %s; __res" % (caps, rty, ref_final)
